@@ -39,6 +39,51 @@ CLAIMED = {
         text="C08_no_counter_reuse_in_order and C08_payloads_intact_contiguous hold for every schedule, number of writers and payloads (fewer than 2^64 events). The real code is exercised with 2..4 concurrent writers over a scripted net.Conn that holds socket writes; every release-order preference is enumerated for N<=3; the captured stream is decrypted by an x/crypto reference framer. The observable compared with the model is the multiset of intact payloads (mutex acquisition order is nondeterministic).",
         design="5/C08",
         note="Partial: the Go memory model below the granularity of the micro-steps (torn counter reads) is not represented; sync.Mutex semantics assumed; the race detector is not part of the registered check. No axioms."),
+    'C01': dict(
+        technique='Coq invariant proofs over the world model (connections, sessions, Authenticate middleware): an adversary connection is never verified for any history with arbitrary interleaving of other connections; a refused request has no effect and a constant answer; translator-regenerated endpoint table; full-stack differential correspondence',
+        text='C01_adversary_never_verified (all histories, all interleavings), C01_refused_no_disclosure_no_effect, C01_no_carry_over, C01_connections_independent, and the endpoint table / middleware shape recompiled from the Go source each run. The real transport is driven over loopback TCP by an independent reference controller plus adversary connections (plaintext requests to all endpoints, failed / forged handshakes); canary strings must never reach an unverified connection.',
+        design='5/C01',
+        note='Symbolic (Dolev-Yao style) cryptography in the world model: forging a proof / signature / sealed message is impossible by construction of the message alphabet; INT-CTXT, EUF-CMA, SRP-6a soundness, CDH, HKDF-as-RO are assumed, not proved. net/http parsing modelled as 400-and-close. Model tied to the code by the translator (endpoint table, Authenticate shape, labels, nonces, tags) and by running the real ipTransport over TCP against an independent reference controller on the same scenarios as the extracted model. No axioms.'),
+    'C02': dict(
+        technique='Coq proofs on the pair-setup controller model: store changes only by a genuine key exchange after a right SRP proof (controller invariant step 4 => SRP key), adversary histories never change the store; full-stack message-sequence correspondence with a math/big SRP reference client',
+        text='C02_store_only_after_proof, C02_invariant_reachable, C02_no_proof_no_key_exchange, C02_adversary_never_stores for every message sequence on any number of interleaved connections. The real controller is driven message by message (23 message kinds incl. A=0/N/2N, zero / random keys, tampered / short / malformed payloads) and the store is read after every message; an independent state machine written from the specification is the oracle.',
+        design='5/C02',
+        note='Symbolic (Dolev-Yao style) cryptography in the world model: forging a proof / signature / sealed message is impossible by construction of the message alphabet; INT-CTXT, EUF-CMA, SRP-6a soundness, CDH, HKDF-as-RO are assumed, not proved. net/http parsing modelled as 400-and-close. Model tied to the code by the translator (endpoint table, Authenticate shape, labels, nonces, tags) and by running the real ipTransport over TCP against an independent reference controller on the same scenarios as the extracted model. No axioms.'),
+    'C03': dict(
+        technique='Coq proofs: the endpoint installs the session iff the finish is a genuine signature of a stored controller in the right step; one-step and all-history versions; full-stack pair-verify variants with plaintext probes',
+        text="C03_install_iff_genuine, C03_verified_only_by_valid_signature, C03_unverified_stays_unverified. 19 finish / start variants (bad signature, stale / reordered material, reflection of the accessory's own signature, unknown names, wrong keys and lengths) are run against the real server; after each, a plaintext probe must still be refused in plaintext.",
+        design='5/C03',
+        note='Symbolic (Dolev-Yao style) cryptography in the world model: forging a proof / signature / sealed message is impossible by construction of the message alphabet; INT-CTXT, EUF-CMA, SRP-6a soundness, CDH, HKDF-as-RO are assumed, not proved. net/http parsing modelled as 400-and-close. Model tied to the code by the translator (endpoint table, Authenticate shape, labels, nonces, tags) and by running the real ipTransport over TCP against an independent reference controller on the same scenarios as the extracted model. No axioms.'),
+    'C04': dict(
+        technique="Coq symbolic-evaluation theorems (honest run completes from every world; wrong code => error 2, nothing stored), constants and signature-material orders regenerated from the Go source proved equal to the specification's, session interop from C06; independent reference controller (math/big SRP over the RFC 3526 prime re-derived from pi, x/crypto) against the real transport",
+        text='C04_completes and C04_wrong_code hold for every world, connection, controller name and key; C04_constants_are_the_specification and C04_signature_material_order are recompiled against Gen/Extracted.v each run. The reference controller verifies every accessory proof and signature (M2, M4, M6), for random setup codes, 1..64-byte / UTF-8 / binary identifiers, 4..154 accessories (multi-frame, multi-chunk responses).',
+        design='5/C04',
+        note='Symbolic (Dolev-Yao style) cryptography in the world model: forging a proof / signature / sealed message is impossible by construction of the message alphabet; INT-CTXT, EUF-CMA, SRP-6a soundness, CDH, HKDF-as-RO are assumed, not proved. net/http parsing modelled as 400-and-close. Model tied to the code by the translator (endpoint table, Authenticate shape, labels, nonces, tags) and by running the real ipTransport over TCP against an independent reference controller on the same scenarios as the extracted model. No axioms.'),
+    'C09': dict(
+        technique='Coq proofs: GET answer shape for every id list (order, one entry per id, 207 iff missing, status on every entry), valid values stored exactly, chunking transparent; full-stack write/set-then-read correspondence incl. string escaping, multi-frame values, large databases',
+        text='C09_get_shape, C09_write_then_read, C09_chunked_identity (+ C06 for framing). Real PUT / application sets followed by GET with random id lists and /accessories through JSON, 2048-byte chunking and encryption, parsed by the reference controller; a Python oracle tracks the expected value of every characteristic.',
+        design='5/C09',
+        note='Symbolic (Dolev-Yao style) cryptography in the world model: forging a proof / signature / sealed message is impossible by construction of the message alphabet; INT-CTXT, EUF-CMA, SRP-6a soundness, CDH, HKDF-as-RO are assumed, not proved. net/http parsing modelled as 400-and-close. Model tied to the code by the translator (endpoint table, Authenticate shape, labels, nonces, tags) and by running the real ipTransport over TCP against an independent reference controller on the same scenarios as the extracted model. No axioms.'),
+    'C10': dict(
+        technique='Coq characterisation of the fan-out (exactly the open, subscribed, non-originating connections, each at most once; nothing without change / permission) + full-stack event histories over several connections with an independent subscription oracle',
+        text='C10_exactly_the_subscribed_others, C10_at_most_once, C10_no_event_without_change, C10_no_subscription_without_event_permission. Histories of subscribe / unsubscribe / local set / remote write / close / reconnect over 2-4 verified connections of the real transport (the wiring in ipTransport.addAccessory / notifyListener is the code under test); events are drained per connection, delimited by a following request.',
+        design='5/C10',
+        note='Symbolic (Dolev-Yao style) cryptography in the world model: forging a proof / signature / sealed message is impossible by construction of the message alphabet; INT-CTXT, EUF-CMA, SRP-6a soundness, CDH, HKDF-as-RO are assumed, not proved. net/http parsing modelled as 400-and-close. Model tied to the code by the translator (endpoint table, Authenticate shape, labels, nonces, tags) and by running the real ipTransport over TCP against an independent reference controller on the same scenarios as the extracted model. No axioms.'),
+    'C11': dict(
+        technique='Coq proofs on the characteristic and PUT-handler models (no write without pw, no stored value without pr, subscription without ev answered -70406 and ineffective) + API-level and HTTP-level correspondence',
+        text='C11_no_write, C11_no_read (all update sequences), C11_no_event. Through HTTP: writes to read-only characteristics, reads of write-only ones, subscriptions to characteristics without event permission followed by local changes; values, callbacks, /accessories and events observed.',
+        design='5/C11',
+        note='Symbolic (Dolev-Yao style) cryptography in the world model: forging a proof / signature / sealed message is impossible by construction of the message alphabet; INT-CTXT, EUF-CMA, SRP-6a soundness, CDH, HKDF-as-RO are assumed, not proved. net/http parsing modelled as 400-and-close. Model tied to the code by the translator (endpoint table, Authenticate shape, labels, nonces, tags) and by running the real ipTransport over TCP against an independent reference controller on the same scenarios as the extracted model. No axioms.'),
+    'C12': dict(
+        technique='Coq invariant proof over arbitrary update sequences with arbitrary values (conversion, clamping, equality test, permissions) + differential correspondence on every format with Python-annotated strconv / float conversions',
+        text='C12_invariant: for every declared format and bounds, every sequence of local / remote / getter-function updates with any value keeps the stored value of the declared type and within bounds, without panic; C12_getters_total. The extracted model and the real characteristic package run on the same update sequences (all formats, permission sets, bounds; numbers of any magnitude, NaN / Inf, numeric and non-numeric strings, null, arrays, objects, repeated composites).',
+        design='5/C12',
+        note='strconv / uint64(float64) results are oracles universally quantified in the theorem and annotated by the generator; unknown (custom) format names are outside the statement. No axioms.'),
+    'C13': dict(
+        technique='Coq totality: no handler outcome is a panic in any world; recovery lemmas for pair-setup / pair-verify from any controller state; full-stack malformed-input battery at five protocol states followed by honest handshakes',
+        text='C13_no_panic, C13_setup_recovers_same_connection, C13_verify_recovers_same_connection, C13_updates_never_panic. Real server: malformed TLV8, hostile JSON (1e400, 12000-deep nesting, wrong types), short / undecryptable payloads, unknown steps / methods, composite values at five protocol states; every request must be answered (no dropped connection) and a correct handshake must succeed afterwards on the same and on a new connection.',
+        design='5/C13',
+        note='Symbolic (Dolev-Yao style) cryptography in the world model: forging a proof / signature / sealed message is impossible by construction of the message alphabet; INT-CTXT, EUF-CMA, SRP-6a soundness, CDH, HKDF-as-RO are assumed, not proved. net/http parsing modelled as 400-and-close. Model tied to the code by the translator (endpoint table, Authenticate shape, labels, nonces, tags) and by running the real ipTransport over TCP against an independent reference controller on the same scenarios as the extracted model. No axioms.'),
 }
 PENDING_REASON = "not yet claimed: model/theorems for this property are still being built in this development (see DESIGN.md section 10 for the order of work)"
 
